@@ -136,6 +136,22 @@ You can provide input either as a file (as the first argument) or by piping logs
 				os.Exit(1)
 			}
 
+			// Validation: Atlas mode needs an API key pair (checked before any file is created)
+			publicKey := atlasPublicKey
+			privateKey := atlasPrivateKey
+			if atlasParamsSet {
+				if publicKey == "" {
+					publicKey = os.Getenv("ATLAS_PUBLIC_KEY")
+				}
+				if privateKey == "" {
+					privateKey = os.Getenv("ATLAS_PRIVATE_KEY")
+				}
+				if publicKey == "" || privateKey == "" {
+					fmt.Fprintln(os.Stderr, "Error: Atlas public/private key not set. Please provide --atlasPublicKey and --atlasPrivateKey or set ATLAS_PUBLIC_KEY and ATLAS_PRIVATE_KEY environment variables.")
+					os.Exit(1)
+				}
+			}
+
 			SetRedactedString(replacement)
 			SetRedactNumbers(redactNumbers)
 			SetRedactIPs(redactIPs)
@@ -186,18 +202,6 @@ You can provide input either as a file (as the first argument) or by piping logs
 
 			// --- Atlas mode ---
 			if atlasParamsSet {
-				publicKey := atlasPublicKey
-				privateKey := atlasPrivateKey
-				if publicKey == "" {
-					publicKey = os.Getenv("ATLAS_PUBLIC_KEY")
-				}
-				if privateKey == "" {
-					privateKey = os.Getenv("ATLAS_PRIVATE_KEY")
-				}
-				if publicKey == "" || privateKey == "" {
-					fmt.Fprintln(os.Stderr, "Error: Atlas public/private key not set. Please provide --atlasPublicKey and --atlasPrivateKey or set ATLAS_PUBLIC_KEY and ATLAS_PRIVATE_KEY environment variables.")
-					os.Exit(1)
-				}
 				client := NewAtlasClient(nil)
 				start, end := GetStartAndEndDates()
 				files, err := client.DownloadClusterLogs(cmd.Context(), publicKey, privateKey, atlasProjectId, atlasClusterName, start, end)
